@@ -75,12 +75,14 @@ type switchHandler struct {
 	mu     sync.RWMutex
 	h      http.Handler
 	remote string // r.RemoteAddr of the last request: what the connection really is
+	count  int    // requests seen since the case began
 }
 
 func (s *switchHandler) ServeHTTP(w http.ResponseWriter, r *http.Request) {
 	s.mu.Lock()
 	h := s.h
 	s.remote = r.RemoteAddr
+	s.count++
 	s.mu.Unlock()
 	if h == nil {
 		http.Error(w, "no case active", 503)
@@ -155,6 +157,7 @@ func propC13(c c13Case) *Outcome {
 	}
 	var conn grpc.ClientConnInterface
 	var crt *countingRT
+	bareTransport := false
 	wantAddr := ""
 	if c.Carrier == cInproc {
 		car := newCarrier(cInproc, newServiceDesc(), svc, carrierOpts{})
@@ -164,6 +167,7 @@ func propC13(c c13Case) *Outcome {
 		h := newHTTPHandlerOnly(c.Carrier, newServiceDesc(), svc)
 		c13Switch.mu.Lock()
 		c13Switch.h = h
+		c13Switch.count = 0
 		c13Switch.mu.Unlock()
 		defer func() {
 			c13Switch.mu.Lock()
@@ -214,6 +218,12 @@ func propC13(c c13Case) *Outcome {
 		}
 		crt = &countingRT{rt: rt}
 		conn = &httpgrpc.Channel{Transport: crt, BaseURL: u}
+		if c.Host != "" && !c.TLS {
+			// the channel is given the *http.Transport itself (requests are counted at the server instead)
+			crt = nil
+			bareTransport = true
+			conn = &httpgrpc.Channel{Transport: rt, BaseURL: u}
+		}
 	}
 	var creds *testCreds
 	var opts []grpc.CallOption
@@ -288,6 +298,10 @@ func propC13(c c13Case) *Outcome {
 	nreq := int32(-1)
 	if crt != nil {
 		nreq = crt.n.Load()
+	} else if bareTransport {
+		c13Switch.mu.RLock()
+		nreq = int32(c13Switch.count)
+		c13Switch.mu.RUnlock()
 	}
 	o.Observed = map[string]interface{}{"err": errStr(err), "requests": nreq, "handler_runs": runs, "in_md": inMD, "peers": fmt.Sprint(peers), "handler_peer": fmt.Sprint(hPeer)}
 	secureChannel := c.Carrier == cInproc || c.TLS
